@@ -52,6 +52,7 @@ var c11Starts = []time.Time{
 	time.Date(2020, 1, 1, 0, 0, 0, 0, time.UTC),              // 007: tie with 002
 	time.Date(2023, 12, 31, 0, 0, 1, 0, time.UTC),            // 008: 1 s inside the 1-day window at T0
 	time.Date(2019, 12, 31, 0, 0, 0, 0, time.UTC),            // 009: the same DAY as 003 but earlier: denom order (…-003 < …-009) is not date order
+	time.Date(1730, 1, 1, 0, 0, 0, 0, time.UTC),              // 010: inside a 300-year window at T0 (cut-off 1724) but beyond what a Go time.Duration can express (about 292 years: 1731)
 }
 
 // Batches of other projects / classes whose denoms sort AFTER every C01-001 denom although their start
